@@ -36,7 +36,7 @@ def vf_resource(url):
 
 def _interp(me, plan, kwargs):
     sys.audit("vf.body", me, {"plan": plan, "kwargs": sorted(kwargs)})
-    nodes = {0: n0, 1: n1, 2: n2, 3: n3}
+    nodes = {0: n0, 1: n1, 2: n2, 3: n3, 4: ne}
     out = [me]
     for act in plan:
         k = act[0]
@@ -98,3 +98,10 @@ def n2(plan, **kwargs):
 def n3(plan, **kwargs):
     _static = (n0, n1, n2)
     return _interp("n3", plan, kwargs)
+
+
+@m.memento_function(cluster="vfc", version="1")
+def ne(plan, **kwargs):
+    """The same interpreter under a declared version (its nested calls are not validated against a closure)."""
+    return _interp("ne", plan, kwargs)
+
